@@ -77,6 +77,110 @@ void future_body() {
 VMC_HARNESS(fut_v2, "C09,C02,C01") { future_body<v2::async_scope>(); }
 VMC_HARNESS(fut_v1, "C09,C02,C01") { future_body<v1::async_scope>(); }
 
+
+// ---- tracked payload through a future, with a throwing copy/move ------------------------------------------------------
+// The spawned leaf completes with a tracked Payload on T1 while T0 awaits (mode 0) or drops (mode 1) the future; the n-th
+// construction of a Payload (data choice, 0 = never) throws.  A value that cannot be stored turns the result into an error;
+// whatever the interleaving, every Payload that was constructed is destroyed exactly once, none is destroyed that was
+// never constructed (storage re-interpreted on the strength of a stale state), and the exception object is not leaked.
+namespace {
+struct PLedger { int live = 0, made = 0, ctor_calls = 0, throw_at = 0; };
+PLedger* g_pl = nullptr;
+struct payload_fault { int n; };
+struct Payload {
+  static constexpr unsigned kMagic = 0xC0FFEE11u;
+  unsigned magic = 0; int tag = 0;
+  explicit Payload(int t) : tag(t) { born(); }
+  Payload(Payload&& o) : tag(o.tag) { o.check("moved from"); maybe_throw(); born(); }
+  Payload(const Payload& o) : tag(o.tag) { o.check("copied from"); maybe_throw(); born(); }
+  Payload& operator=(Payload&&) = delete;
+  ~Payload() {
+    if (magic != kMagic) vmcrt::fail("C09,C02", "destroyed-never-constructed", "a result object was destroyed that had never been constructed (or was destroyed twice)");
+    magic = 0xDEADu; --g_pl->live;
+  }
+  void check(const char* what) const { if (magic != kMagic) vmcrt::fail("C09,C02", "payload-read-after-destroy", (std::string("a result object was ") + what + " after it had been destroyed / before it was constructed").c_str()); }
+  void born() { magic = kMagic; ++g_pl->live; ++g_pl->made; }
+  static void maybe_throw() { if (++g_pl->ctor_calls == g_pl->throw_at) throw payload_fault{g_pl->ctor_calls}; }
+};
+struct PLeafState { void* op = nullptr; void (*fire)(void*) = nullptr; int started = 0, completed = 0, alive = 0; bool stop_seen = false; };
+struct PLeaf {
+  PLeafState* st;
+  template <template <class...> class V, template <class...> class T> using value_types = V<T<Payload>>;
+  template <template <class...> class V> using error_types = V<std::exception_ptr>;
+  static constexpr bool sends_done = true;
+  template <class R>
+  struct Op {
+    PLeafState* st; R r;
+    struct Cb { PLeafState* st; void operator()() noexcept { st->stop_seen = true; } };
+    std::optional<typename stop_token_type_t<R>::template callback_type<Cb>> cb;
+    Op(PLeafState* s, R&& rr) : st(s), r((R&&)rr) { ++st->alive; }
+    Op(Op&&) = delete;
+    ~Op() { --st->alive; }
+    void start() noexcept {
+      st->op = this;
+      st->fire = [](void* p) { auto* self = static_cast<Op*>(p); self->cb.reset(); ++self->st->completed; Payload v(7);
+        // (a receiver that takes its values by value constructs them in the caller: the sender reports such a throw itself,
+        // as just() does; the receiver has not been entered, so it is still intact)
+        try { unifex::set_value(std::move(self->r), std::move(v)); } catch (...) { unifex::set_error(std::move(self->r), std::current_exception()); } };
+      cb.emplace(get_stop_token(r), Cb{st});
+      VMC_TSAN_REL(st);
+      ++st->started;
+    }
+  };
+  template <class R> Op<std::decay_t<R>> connect(R&& r) const& { return Op<std::decay_t<R>>{st, (R&&)r}; }
+};
+struct PRcv {
+  RcvState* s; int* tag; inplace_stop_token tok{};
+  void set_value(Payload&& p) noexcept { p.check("delivered"); *tag = p.tag; s->signal('V'); }
+  void set_value(const Payload& p) noexcept { p.check("delivered"); *tag = p.tag; s->signal('V'); }
+  void set_error(std::exception_ptr e) noexcept { try { std::rethrow_exception(e); } catch (const payload_fault& f) { s->err_tag = f.n; } catch (...) { s->err_tag = -2; } s->signal('E'); }
+  void set_done() noexcept { s->signal('D'); }
+  friend inplace_stop_token tag_invoke(tag_t<get_stop_token>, const PRcv& r) noexcept { return r.tok; }
+  friend inline_scheduler tag_invoke(tag_t<get_scheduler>, const PRcv&) noexcept { return {}; }
+};
+template <class Scope>
+void payload_body() {
+  int mode = vmcrt::arg(0, 0);
+  PLedger pl; g_pl = &pl;
+  pl.throw_at = vmc::choose(5);   // 0 = never, else the n-th Payload copy/move throws
+  kit::AllocLedger led; led.props = "C09,C02";
+  PLeafState a; RcvState rf, rj; rf.props = rj.props = "C09,C01"; int got_tag = -1;
+  inplace_stop_source never;
+  {
+    Scope scope;
+    {
+      auto fut = spawn_future(PLeaf{&a}, scope, kit::counting_allocator<std::byte>{&led});
+      std::thread t1([&] { VMC_TSAN_ACQ(&a); a.fire(a.op); });
+      if (mode == 0) {
+        auto op = unifex::connect(std::move(fut), PRcv{&rf, &got_tag, never.get_token()});
+        unifex::start(op);
+        t1.join();
+        vmc::wait_until([&] { return rf.count > 0; });
+      } else {
+        { auto dropped = std::move(fut); }
+        t1.join();
+      }
+    }
+    if (mode == 0) {
+      vmc::check(rf.count == 1, "C09,C01", "not-once", "future not completed exactly once");
+      if (rf.how == 'V') vmc::check(got_tag == 7, "C09", "wrong-value", "future delivered a value different from the operation's");
+      if (rf.how == 'E') vmc::check(rf.err_tag == pl.throw_at && pl.throw_at != 0, "C09,C05", "wrong-error", "future delivered an error that is not the exception thrown while storing the value");
+      if (pl.throw_at == 0) vmc::check(rf.how == 'V', "C09", "wrong-channel", "future of a value completion did not deliver the value");
+    }
+    auto jop = unifex::connect(join_of(scope), JoinRcv{&rj});
+    unifex::start(jop);
+    vmc::check(rj.count == 1, "C09,C08", "join-lost", "scope join did not complete after the future was consumed/dropped and the operation finished");
+  }
+  vmc::check(a.alive == 0, "C09,C02", "op-leak", "spawned operation state not destroyed exactly once");
+  vmc::check(pl.live == 0, "C09,C02", "result-leak", "result objects constructed and destroyed do not balance: " + std::to_string(pl.live) + " still alive");
+  vmc::check(led.allocs == 1 && led.live == 0, "C09,C02", "shared-state", "the heap state shared by future and operation was not freed exactly once");
+  g_pl = nullptr;
+  vmc::note((mode == 0 ? rf.str() : std::string("drop")) + " t" + std::to_string(pl.throw_at));
+}
+}  // namespace
+VMC_HARNESS(fut_payload_v2, "C09,C02,C05") { payload_body<v2::async_scope>(); }
+VMC_HARNESS(fut_payload_v1, "C09,C02,C05") { payload_body<v1::async_scope>(); }
+
 // future spawned in an already closed scope: completes with done, sender destroyed, nothing leaked
 VMC_SEQ_HARNESS(fut_closed, "C09,C02") {
   kit::AllocLedger led; led.props = "C09,C02";
